@@ -45,6 +45,13 @@ pub fn strategy() -> BoxedStrategy<Case> {
         prop::option::weighted(0.6, (aud_nonce_strategy(), aud_nonce_strategy())),
     )
         .prop_map(|(mut issue, exp, nbf, ch, kb)| {
+            // nested claims that merely *look* temporal must never influence the decision: a
+            // nested nbf far in the future, a nested exp long past (user data, not JWT claims)
+            if ch.first().map(|c| c % 5 == 0).unwrap_or(false) {
+                if let Some(o) = issue.claims.as_object_mut() {
+                    o.insert("membership".into(), serde_json::json!({"nbf": 4_000_000_000u64, "exp": 1_000_000_000u64, "iat": 9_999_999_999u64, "valid": [{"nbf": 4.1e9, "exp": 5}]}));
+                }
+            }
             // nbf must stay visible for the nbf clause to be asserted: Custom strategies never list
             // it; TopLevel / AllLevels (which hide it) are only combined with nbf absent
             let mut nbf = nbf;
